@@ -4,6 +4,8 @@ From NTT Require Import CRT CRTExec CRTClosed CRTRing CRTRingClosed.
 From NTT.gen Require Import Params.
 Import ListNotations.
 From NTT Require GmpSpec GenGmpEq.
+From NTT Require Setters SetterSpec SetMpzSpec.
+From NTT.gen Require GenLoop.
 From NTT.gen Require GenGmp.
 Local Open Scope Z_scope.
 
@@ -115,3 +117,21 @@ Theorem C04_source_mpz2poly_statement : forall bits m2p, GenGmpEq.m2p_statement 
     forall cm i, (cm < nm)%nat -> (i < n)%nat -> nth (cm * n + i) res 0 = nth cm (mpz2poly_coef (firstn nm P) (nth i vals 0)) 0).
 Proof. intros bits m2p. unfold GenGmpEq.m2p_statement. split; intros H; exact H. Qed.
 Print Assumptions C04_source_mpz2poly_statement.
+
+(* set_mpz(It, It) OF THE SOURCE (gmp.hpp, the routine behind every big-integer setter and constructor; translated on every run into
+   gen/GenLoop.v): integers of any magnitude or sign are stored as their non-negative residues (Setters.set_list with the reduction on,
+   whose reduction is `v mod p`, C15_red) -- the second way into a polynomial besides GMP::mpz2poly (C04_source_mpz2poly). *)
+Theorem C04_source_set_mpz : forall n nm P vals data0 f l fuel, (f <= l <= length vals)%nat -> length data0 = (nm * n)%nat ->
+  Z.of_nat (nm * n) < 2 ^ 61 -> Z.of_nat n < 2 ^ 61 -> Z.of_nat nm < 2 ^ 61 -> Z.of_nat (length vals) < 2 ^ 61 -> (n < fuel)%nat -> (nm <= length P)%nat ->
+  let out := Setters.set_list n nm (fun cm => List.nth cm P 0) true (List.firstn (l - f) (List.skipn f vals)) data0 in
+  let res := option_map (fun s : SetterSpec.SS => fst (fst s)) in
+  (List.Forall (fun p => 0 < p < 2 ^ 16) (List.firstn nm P) -> res (GenLoop.gen_set_mpz_u16 fuel (Z.of_nat n) data0 vals (Z.of_nat f) (Z.of_nat l) (Z.of_nat nm) P) = out) /\
+  (List.Forall (fun p => 0 < p < 2 ^ 32) (List.firstn nm P) -> res (GenLoop.gen_set_mpz_u32 fuel (Z.of_nat n) data0 vals (Z.of_nat f) (Z.of_nat l) (Z.of_nat nm) P) = out) /\
+  (List.Forall (fun p => 0 < p < 2 ^ 64) (List.firstn nm P) -> res (GenLoop.gen_set_mpz_u64 fuel (Z.of_nat n) data0 vals (Z.of_nat f) (Z.of_nat l) (Z.of_nat nm) P) = out).
+Proof.
+  exact (fun n nm P vals data0 f l fuel Hfl Hd Hs Hn Hnm Hl Hfu HPl =>
+    conj (SetMpzSpec.source_set_mpz_u16 n nm P vals data0 f l fuel Hfl Hd Hs Hn Hnm Hl Hfu HPl)
+   (conj (SetMpzSpec.source_set_mpz_u32 n nm P vals data0 f l fuel Hfl Hd Hs Hn Hnm Hl Hfu HPl)
+         (SetMpzSpec.source_set_mpz_u64 n nm P vals data0 f l fuel Hfl Hd Hs Hn Hnm Hl Hfu HPl))).
+Qed.
+Print Assumptions C04_source_set_mpz.
